@@ -213,6 +213,11 @@ def run(rep, ix, tier):
     check_pred(rep, ix)
     check_rows(rep, ix)
     check_reduce(rep, ix)
+    # read-back side of the round trip (LASRead.py is an anchor): channel kinds, field grammar, null masking -- rules of C09
+    from . import C09
+    C09.check_kinds(rep, ix)
+    C09.check_field_regex(rep, ix)
+    rep.floor('R-C09-KINDS', 3)
     rep.floor('R-C10-PRED', 8)
     rep.floor('R-C10-ITER', 7)
     rep.floor('R-C10-SEP', 8)
